@@ -70,7 +70,13 @@ def _base(rng, tier, fn, T=None, N=None, dtype=None):
     if dtype is None:
         dtype = rng.choice(["float32", "float32", "float32", "int64", "float64"])
     rest = list(rng.choice(RESTS))
-    value = rng.choice([0.0, -1.0, 3.0, 99.0]) if dtype == "int64" else rng.choice([0.0, -1.5, 7.25, 1024.0])
+    if dtype == "int64":
+        # sentinels single precision cannot hold included
+        value = rng.choice([0.0, -1.0, 3.0, 99.0, float(2 ** 24 + 1), float(2 ** 31 - 1), float(-(2 ** 40) - 1)])
+    elif dtype == "float64":
+        value = rng.choice([0.0, -1.5, 7.25, 1024.0, 0.1, 1e-3, -1e300, 1.0 + 2.0 ** -40])
+    else:
+        value = rng.choice([0.0, -1.5, 7.25, 1024.0])
     return {
         "fn": fn, "form": rng.choice(["functional", "module"]), "dtype": dtype,
         "N": N, "T": T, "rest": rest, "value": value,
